@@ -1,5 +1,5 @@
 \* scenario generation: every scenario of the scope (initial states only), printed as JSON
-CONSTANTS NPods = 3  PodArchs = {1,2,3,4,5,6,7,8,9,10}  Layouts = {1,2,3}  Caps = {0,1,2}  PoolSets = {1,2,3,4,5}  Modes = {"strict", "fallback"}
+CONSTANTS NPods = 3  PodArchs = {1,2,3,4,5,6,7,8,9,10}  Layouts = {1,2,3}  Caps = {0,1,2}  PoolSets = {1,2,3,4,5}  Modes = {"strict", "fallback"}  GenMod = 1  GenRes = 0
 CONSTANTS W_CanReserve = TRUE  W_Release = TRUE  W_PinAll = TRUE  W_Strict = TRUE  W_KeepHeld = TRUE  W_PoolOrder = TRUE
 SPECIFICATION GenSpec
 INVARIANTS GenPrint
